@@ -1342,6 +1342,66 @@ def replay_psi_zero(args):
     return (False, msg) if msg else (True, "held")
 
 
+# the MODEL wrapper with two options at once: the four ways of writing one process (absolute / relative shift times x origin / root edge)
+def _model_combo_values():
+    import torchtree.evolution.bdsk as bd
+    from torchtree.core.parameter import Parameter
+    from specs import treemodels
+    t64 = lambda v: torch.tensor(v, dtype=torch.float64)
+    tree, names = (((0, 1), 2), 3), ["A", "B", "C", "D"]
+    tips = [0.0, 0.5, 1.0, 2.5]
+    hs = {(0, 1): 1.5, ((0, 1), 2): 3.0, (((0, 1), 2), 3): 4.0}
+    root, edge = 4.0, 2.0
+    x0 = root + edge
+    R, delta, sp = [1.5, 2.0, 1.2], [1.0, 0.8, 1.1], [0.3, 0.4, 0.2]          # forward-time order (oldest epoch first)
+    shift = [0.0, 2.3, 4.7]                                                      # forward times of the rate shifts
+    lam = [r_ * d_ for r_, d_ in zip(R, delta)]
+    psi = [s_ * d_ for s_, d_ in zip(sp, delta)]
+    mu = [d_ - p_ for d_, p_ in zip(delta, psi)]
+    rho_present = 0.3
+    rev = lambda v: list(reversed(v))
+    ep = S.Epochs([0.0, x0 - shift[2], x0 - shift[1]], rev(lam), rev(mu), rev(psi), [rho_present, 0.0, 0.0], None)
+    ode = S.ode_log_density(tree, tips, lambda s_: hs[s_], x0, ep, survival=True)
+    out = {}
+    for relative in (False, True):
+        for root_edge in (False, True):
+            tm = treemodels.build_timetree(tree, names, tips, t64([hs[(0, 1)], hs[((0, 1), 2)], root]))[0]
+            kw = dict(rho=Parameter("rho", t64([rho_present])), origin=Parameter("origin", t64([edge if root_edge else x0])),
+                      times=Parameter("times", t64([t_ / x0 for t_ in shift] if relative else shift)), relative_times=relative, origin_is_root_edge=root_edge, survival=True)
+            try:
+                m = bd.BDSKModel("bdsk", tm, Parameter("R", t64(R)), Parameter("delta", t64(delta)), Parameter("s", t64(sp)), **kw)
+                out[(relative, root_edge)] = float(m().reshape(-1)[0])
+            except Exception as e:
+                if not _raised_in_repo(e):
+                    raise
+                out[(relative, root_edge)] = "%s: %s" % (type(e).__name__, str(e)[:100])
+    return out, ode
+
+
+def _model_combo_problem():
+    out, ode = _model_combo_values()
+    bad = ["relative_times=%s, origin_is_root_edge=%s: %s" % (k[0], k[1], v if isinstance(v, str) else "%.8f" % v)
+           for k, v in out.items() if isinstance(v, str) or abs(v - ode) > 1e-6 * max(1.0, abs(ode))]
+    if bad:
+        return "BDSKModel, three epochs, one process written four ways (shift times absolute / relative to the origin x origin given / as root edge): master equations %.8f, model: %s" % (ode, "; ".join(bad))
+    return None
+
+
+def ob_model_combo():
+    def fn():
+        msg = _model_combo_problem()
+        if msg:
+            raise Refuted(msg, witness={}, confirmed=True, replay={"kind": "custom", "contract": "C09", "func": "replay_model_combo", "args": {}})
+        return {"backend": "numeric (RK4 master equations vs real model wrapper)", "cases": 4,
+                "statement": "BDSKModel: the four combinations of relative_times and origin_is_root_edge describe one process and match the master equations"}
+    return fn
+
+
+def replay_model_combo(args):
+    msg = _model_combo_problem()
+    return (False, msg) if msg else (True, "held")
+
+
 # default epoch grid (times=None): the boundaries are cumulative sums of origin/m, the last of which need not be bit-equal to the origin
 _GRID_ORIGINS = (6.2, 5.3, 6.0, 10.0, 7.7, 3.3)
 
@@ -1694,6 +1754,8 @@ def obligations(tier, seed):
     for removal in (None, 0.4):
         obs.append(Ob("C09.master_equations.psi_zero_recent_epoch[removal=%s]" % removal, "B", ob_psi_zero(removal),
                       clause="matches the master equations for a sampling scheme without serial sampling in the epoch that holds the rho-sampled tips", funcs=FUNCS))
+    obs.append(Ob("C09.model.options_combined[relative_times x origin_is_root_edge]", "B", ob_model_combo(),
+                  clause="options given in a specification select the behaviour they name, also in combination (model wrapper against the master equations)", funcs=FUNCS))
     obs.append(Ob("C09.refine.default_grid", "B", ob_default_grid(), clause="unchanged when an epoch is split into sub-epochs with identical rates (default grid: boundaries that are sums of origin/m)", funcs=FUNCS))
     for label in _RANGE_CASES:
         for which in ("1", "3", "constant"):
